@@ -244,7 +244,10 @@ impl<'i, I: Input + ?Sized, S, TK> GssHead<'i, I, S, TK> {
 //@end
 
 // ---- longest match / grammar order (same specification text as unit lookahead) ---------------------------------------------------
-pub open spec fn tok_len<'i, I: Input + ?Sized, TK>(t: Token<'i, I, TK>) -> usize { t.value.v_len() }
+//@include lookahead_specs.inc
+
+/// what the lexer returns for a head, an input and a list of expected kinds (the lexer call is external here: a `Box<dyn Iterator>`)
+pub uninterp spec fn glr_lexed<'i, S: State, L: Lexer<'i, GssHead<'i, I, S, TK>, S, TK, Input = I>, P, TK: Default, NTK, D: ParserDefinition<S, P, TK, NTK> + 'static, I: Input + ?Sized, B>(parser: &GlrParser<'i, S, L, P, TK, NTK, D, I, B>, head: GssHead<'i, I, S, TK>, input: &'i I, expected: Seq<(TK, bool)>) -> Seq<Token<'i, I, TK>>;
 
 pub assume_specification<T, A: Allocator, F: FnMut(&T) -> bool> [Vec::<T, A>::retain] (v: &mut Vec<T, A>, f: F)
     requires forall|x: &T| #[trigger] f.requires((x,)),
@@ -265,11 +268,24 @@ pub assume_specification<T, A: Allocator, F: FnMut(&T) -> bool> [Vec::<T, A>::re
 //@  |             empty_slice_ok(input, 0),
 //@  |         ensures
 //@  |             final(head).v_state() == old(head).v_state(), // [C02, C12] the content state is restored around a layout parse
+//@  |             // [C06] "a GLR parser follows each of them": when the lexer finds candidates at the head's position, the lookaheads are
+//@  |             // those candidates after the enabled strategies -- longest match, then grammar order -- and nothing else is dropped
+//@  |             ({ let ts = glr_lexed(self, *old(head), input, self.definition.v_expected(old(head).v_state()));
+//@  |                ts.len() > 0 ==> r@ == glr_disamb(ts, D::v_longest_match(), D::v_grammar_order()) }), // [C06]
+//@  |             // in every case the result is the disambiguation of what the lexer returned in some round, or the lone synthetic STOP, or empty
+//@  |             r@.len() <= 1 || exists|ts: Seq<Token<'i, I, TK>>| ts.len() > 0 && r@ == glr_disamb(ts, D::v_longest_match(), D::v_grammar_order()), // [C06]
 //@  xexpr xexpr_glr_lex(self, head, input, &expected_tokens) = self.lexer.next_tokens(head, input, expected_tokens.clone()).collect()
 //@  xexpr xexpr_glr_layout_parser(self) = self.layout_parser.borrow_mut().as_ref()
 //@  xexpr xexpr_longest_len(&tokens) = tokens.iter().max_by_key(|token| token.value.len()).unwrap().value.len()
 //@  xexpr xexpr_stop_expected(&expected_tokens, stop_kind) = expected_tokens.iter().any(|tk| tk.0 == stop_kind)
 //@  cspec_self retain bool
+//@  before 1 "tokens.retain("
+//@  |                        proof { lemma_keep_longest(tokens@, longest_len); lemma_keep_longest_sound(tokens@, longest_len); }
+//@  after 1 ".collect();"
+//@  |            let ghost lx = tokens@;
+//@  |            let ghost first_round = layout_parsing;
+//@  before 1 "return tokens;"
+//@  |                assert(tokens@ == glr_disamb(lx, D::v_longest_match(), D::v_grammar_order())); // [C06]
 //@  before 1 "loop {"
 //@  |         broadcast use axiom_empty_slice_ok;
 //@  |         let ghost st0 = head.v_state();
@@ -277,8 +293,12 @@ pub assume_specification<T, A: Allocator, F: FnMut(&T) -> bool> [Vec::<T, A>::re
 //@  |             invariant
 //@  |                 head.v_state() == st0, st0 == old(head).v_state(),
 //@  |                 S::v_default_layout() is Some,
+//@  |                 expected_tokens@ == self.definition.v_expected(st0),
+//@  |                 // the first round looks at the head as it was handed in; later rounds happen only because that round found nothing
+//@  |                 layout_parsing ==> *head == *old(head),
+//@  |                 !layout_parsing ==> glr_lexed(self, *old(head), input, expected_tokens@).len() == 0,
 //@  |             // [C15] the layout parser is tried at most once per head: the search ends after at most two rounds
-//@  |             ensures !layout_parsing,
+//@  |             ensures !layout_parsing, glr_lexed(self, *old(head), input, expected_tokens@).len() == 0,
 //@  |             decreases (if layout_parsing { 1int } else { 0int }),
 //@  before 1 "continue;"
 //@  |                             // [C14] the layout stored in front of the next token is what the layout parser returned, and the search goes
@@ -291,12 +311,15 @@ pub assume_specification<T, A: Allocator, F: FnMut(&T) -> bool> [Vec::<T, A>::re
 //@xexprfn xexpr_glr_lex nobody
 //@  | fn xexpr_glr_lex<'i, S: State, L: Lexer<'i, GssHead<'i, I, S, TK>, S, TK, Input = I>, P, TK: Default, NTK, D: ParserDefinition<S, P, TK, NTK> + 'static, I: Input + ?Sized, B>(parser: &GlrParser<'i, S, L, P, TK, NTK, D, I, B>, head: &mut GssHead<'i, I, S, TK>, input: &'i I, expected: &Vec<(TK, bool)>) -> (r: Vec<Token<'i, I, TK>>)
 //@  |     ensures final(head).v_state() == old(head).v_state(), final(head).v_span() == old(head).v_span(),
+//@  |         r@ == glr_lexed(parser, *old(head), input, expected@),
 //@end
 //@xexprfn xexpr_glr_layout_parser nobody
 //@  | fn xexpr_glr_layout_parser<'a, 'i, S: State, L: Lexer<'i, GssHead<'i, I, S, TK>, S, TK, Input = I>, P, TK: Default, NTK, D: ParserDefinition<S, P, TK, NTK> + 'static, I: Input + ?Sized, B>(parser: &'a GlrParser<'i, S, L, P, TK, NTK, D, I, B>) -> (r: Option<&'a LRParser<'i, GssHead<'i, I, S, TK>, S, P, TK, NTK, D, L, SliceBuilder<'i, I>, I>>)
 //@end
 //@xexprfn xexpr_longest_len nobody
 //@  | fn xexpr_longest_len<'i, I: Input + ?Sized, TK>(tokens: &Vec<Token<'i, I, TK>>) -> (r: usize)
+//@  |     requires tokens@.len() > 0,
+//@  |     ensures is_longest(tokens@, r),
 //@end
 //@xexprfn xexpr_stop_expected nobody
 //@  | fn xexpr_stop_expected<TK: PartialEq>(expected: &Vec<(TK, bool)>, stop_kind: TK) -> (r: bool)
